@@ -156,13 +156,29 @@ Abs(rep, s) == LET B == AbsBase(rep, s) IN
 (**************************** formula-filled data ****************************)
 \* small integers in -4 .. 4
 Fill(salt, i, j) == ((3 * i + 5 * j + i * j + 7 * salt) % 9) - 4
+\* +-1, +-2, +-4: exact divisors
+Pow2Fill(salt, i, j) == LET k == (i + 2 * j + salt) % 3
+                            m == IF k = 0 THEN 1 ELSE IF k = 1 THEN 2 ELSE 4
+                        IN IF (i * j + salt) % 2 = 0 THEN m ELSE 0 - m
+\* data modes: "plain"; "x4" (multiples of 4); "pow2" (exact divisors, never zero);
+\* "unitU" / "unitL": unit upper / lower triangular with off-diagonal entries in -1 .. 1
+Val(mode, salt, i, j) ==
+    CASE mode = "plain" -> Fill(salt, i, j)
+      [] mode = "x4" -> 4 * Fill(salt, i, j)
+      [] mode = "pow2" -> Pow2Fill(salt, i, j)
+      [] mode = "unitU" -> IF i = j THEN 1 ELSE IF i < j THEN (AbsI(Fill(salt, i, j)) % 3) - 1 ELSE 0
+      [] mode = "unitL" -> IF i = j THEN 1 ELSE IF i > j THEN (AbsI(Fill(salt, i, j)) % 3) - 1 ELSE 0
 \* base matrix with the structure of rep, filled by formula (the projection of a full
 \* formula matrix onto the structure); Cholesky factors get a positive diagonal
-BaseData(rep, salt) ==
+BaseDataM(rep, salt, mode) ==
     [i \in 1 .. rep.r |-> [j \in 1 .. rep.c |->
         IF Slot(rep, i, j) = 0 THEN 0
         ELSE IF rep.kind = "Chol" /\ i = j THEN 1 + (AbsI(Fill(salt, i, j)) % 2)
-        ELSE IF rep.kind \in SymmetricStorage THEN Fill(salt, Min2(i, j), Max2(i, j))
-        ELSE Fill(salt, i, j)]]
-StoreOf(rep, salt) == StoreBase(rep, BaseData(rep, salt))
+        ELSE IF rep.kind \in SymmetricStorage THEN Val(mode, salt, Min2(i, j), Max2(i, j))
+        ELSE Val(mode, salt, i, j)]]
+BaseData(rep, salt) == BaseDataM(rep, salt, "plain")
+StoreOfM(rep, salt, mode) == StoreBase(rep, BaseDataM(rep, salt, mode))
+StoreOf(rep, salt) == StoreOfM(rep, salt, "plain")
+\* backing array realising a GIVEN denoted matrix A (A must have the structure of rep)
+StoreOfAbs(rep, A) == StoreBase(rep, IF rep.tw = "N" THEN A ELSE Transpose(A))
 =============================================================================
